@@ -779,3 +779,30 @@ def sorted_projections_l1():
     a = np.array([3.0, 1.0, 2.0])
     b = np.array([1.0, 1.5, 5.0])
     return float(np.sum(np.abs(np.sort(a) - np.sort(b))))
+
+
+# ----------------------------------------------------------------------------- numpy in-place forms
+def ufunc_with_out_argument():
+    a = np.array([1.0, 5.0, 3.0])
+    b = np.array([0.5, 1.0, 1.0])
+    np.subtract(a, b, out=a)
+    return a
+
+
+def copyto_with_mask():
+    a = np.array([1.0, np.inf, 3.0])
+    np.copyto(a, 9.0, where=np.isinf(a))
+    return a
+
+
+def copyto_reaches_aliases():
+    a = np.zeros(3)
+    b = a
+    np.copyto(b, np.array([1.0, 2.0, 3.0]))
+    return a
+
+
+def out_argument_on_a_column_view():
+    a = np.array([[1.0, 3.0], [2.0, 7.0]])
+    np.subtract(a[:, 1], a[:, 0], out=a[:, 1])
+    return a
